@@ -17,7 +17,7 @@ import (
 
 func TestVerif_C09(t *testing.T) {
 	rep := vk.NewReport(t, "C09", "exploration")
-	rep.Rule = "NewMergeHandler over 2-5 (one session in twelve: 6-25, sometimes 60-74) scripted children that answer every EVENT with one OK and every COUNT with one COUNT after seeded delays (out of order across different ids, in submission order for the same id); verdicts, reasons (with and without machine-readable prefixes; in one session in five oddly shaped: a bare prefix, leading/trailing white space, empty), counts and the optional approximate member are a seeded function of (child, id, occurrence) and every reason names (child, occurrence), so a reply identifies the submission it answers; the client pipelines 1-8 requests over tiny id alphabets (the same event id / COUNT id several times in flight, CLOSE messages and REQs (which every child refuses with CLOSED) for the same ids in between); 2-5 clients at once on one merged handler whose children reject everything with 2-5 kB reasons naming child and event (every reply is the reply of its own submission); offline: #OK(id) = #EVENT(id), accepted OKs = all-accept submissions, each rejecting OK begins with the full reason of a rejecting child of a distinct submission that is the lowest-index or the earliest-replying rejecter; #COUNT(id) = #requests and the multiset of values = per-request maxima; non-trivial = a session with a repeated id in flight or mixed verdicts; distinct = distinct (children, request shape, verdict pattern)"
+	rep.Rule = "NewMergeHandler over 2-5 (one session in twelve: 6-25, sometimes 60-74) scripted children that answer every EVENT with one OK and every COUNT with one COUNT after seeded delays (out of order across different ids, in submission order for the same id); verdicts, reasons (with and without machine-readable prefixes; in one session in five oddly shaped: a bare prefix, leading/trailing white space, empty), counts and the optional approximate member are a seeded function of (child, id, occurrence) and every reason names (child, occurrence), so a reply identifies the submission it answers; the client pipelines 1-8 requests over tiny id alphabets (the same event id / COUNT id several times in flight, CLOSE messages and REQs (which every child refuses with CLOSED) for the same ids in between); 2-5 clients at once on one merged handler whose children reject everything with 2-5 kB reasons naming child and event (every reply is the reply of its own submission); offline: #OK(id) = #EVENT(id), accepted OKs = all-accept submissions, each rejecting OK begins with the full reason of a rejecting child of a distinct submission that is the lowest-index or the earliest-replying rejecter; #COUNT(id) = #requests and the multiset of values = per-request maxima; added later: one session in four uses the empty string as a COUNT id; a quarter of the reasons carry multi-byte characters; non-trivial = a session with a repeated id in flight or mixed verdicts; distinct = distinct (children, request shape, verdict pattern)"
 	defer rep.Finish()
 	pc := &pointCtl{sleep: true, only: "merge."}
 	mocrelay.SetVerifPoint(pc.fn)
